@@ -3,11 +3,13 @@
    (ForeignFs.embed) of the run in the empty directory.
 
    - foreign name: the family test of the model rejects it (TsForeignFacts.ts_member c n = false): it is not the current
-     file, and the listing extracts no infix from it, or an infix that neither the time-stamp filter (r%Y-%m-%d_%H-%M-%S as
-     chrono parses it) nor the number filter ("r", a digit, one more byte) accepts - as a plain file, as an archive, and with
-     ".gz" removed.  Examples: a_rXYZ.log, a_r1.log, a_rCURRENT.txt, a_rCURRENT.log.gz, a_r1970-01-01_00-00-00.log.bak are
-     foreign; a_rCURRENT.log, a_r1999-01-01_00-00-00.log, a_r1970-1-1_0-0-0.log, a_r1x.log are not (member_files_t: what the
-     model does with them: the restart counter, the stranger's rCURRENT file, the cleanup).
+     file, and the listing extracts no infix from it, or an infix that the time-stamp filter (r%Y-%m-%d_%H-%M-%S as chrono
+     parses it) does not accept - as a plain file, as an archive, and with ".gz" removed.  Examples: a_rXYZ.log, a_r1.log,
+     a_rCURRENT.txt, a_rCURRENT.log.gz, a_r1970-01-01_00-00-00.log.bak are foreign, and so are the names with a number infix
+     or something like it: a_r00001.log, a_r1x.log (number_infix_foreign_t; before the repair of the number filter and of
+     latest_timestamp_file the family test of the time-stamp namings had to accept them); a_rCURRENT.log,
+     a_r1999-01-01_00-00-00.log, a_r1970-1-1_0-0-0.log are not (member_files_t: what the model does with them: the restart
+     counter, the stranger's rCURRENT file, the cleanup).
    - timestamps_foreign_ignored: every criterion, every history OStart c :: ops ++ [OStop] of basic operations with a clock
      that does not run backwards (snapshots included), with or without append, any buffer capacity, use_utc either way.
    - timestamps_stream_foreign: timestamps_stream carries over.
@@ -305,13 +307,16 @@ Definition extf_c : config := extf_cfg KNever true.
 Definition extf_ops : list op :=
   [OWrite (bs "abcd"); OWrite (bs "ef"); OTrigger; OTick 1; OWrite (bs "ghij"); OSnap; OWrite (bs "k")].
 
-(* near misses of the family a_rCURRENT.log, a_r<time stamp>[.restart-NNNN].log[.gz] *)
+(* near misses of the family a_rCURRENT.log, a_r<time stamp>[.restart-NNNN].log[.gz]; among them the files of the number
+   namings (plain and compressed), a number and a letter, a date without the time, a time stamp and a letter *)
 Definition extf_foreign : list (bytes * bytes) :=
   [ (bs "a_r1970-01-01_00-00-00.log.bak", bs "w"); (bs "a_rXYZ.log", bs "x"); (bs "b.log", bs "y");
     (bs "a_r1970-01-01_00-00-00.txt", bs "z"); (bs "a_r1.log", bs "u"); (bs "ax_r1970-01-01_00-00-00.log", bs "v");
     (bs "a_r1970-01-01_00-00-00", bs "t"); (bs "a_rCURRENT.txt", bs "s"); (bs "a.log", bs "q");
     (bs "a_r1970-01-01_00-00-00.restart-00.log", bs "p"); (bs "a_1970-01-01_00-00-00.log", bs "o");
-    (bs "a_rCURRENT.log.gz", bs "n"); (bs "a_rCURRENT", bs "m") ].
+    (bs "a_rCURRENT.log.gz", bs "n"); (bs "a_rCURRENT", bs "m");
+    (bs "a_r1x.log", bs "1"); (bs "a_r00001.log", bs "2"); (bs "a_r2030-01-01_00-00-00x.log", bs "3");
+    (bs "a_r1970-01-01.log", bs "4"); (bs "a_r00001.log.gz", bs "5") ].
 
 Example foreign_hypotheses_t :
   tscfg extf_c (CSize 3) /\ tag_ok extf_c /\ Forall basic_op extf_ops /\ Forall tick_ok extf_ops
@@ -343,7 +348,10 @@ Example foreign_instance_dir_t :
   ex_snap (fst (run (sys0f 0 0 extf_foreign) (OStart extf_c :: extf_ops ++ [OStop])))
   = [ (bs "a.log", 0%N, bs "q");
       (bs "a_1970-01-01_00-00-00.log", 0%N, bs "o");
+      (bs "a_r00001.log", 0%N, bs "2");
+      (bs "a_r00001.log.gz", 0%N, bs "5");
       (bs "a_r1.log", 0%N, bs "u");
+      (bs "a_r1970-01-01.log", 0%N, bs "4");
       (bs "a_r1970-01-01_00-00-00", 0%N, bs "t");
       (bs "a_r1970-01-01_00-00-00.log", 0%N, bs "abcd");
       (bs "a_r1970-01-01_00-00-00.log.bak", 0%N, bs "w");
@@ -351,6 +359,8 @@ Example foreign_instance_dir_t :
       (bs "a_r1970-01-01_00-00-00.restart-0000.log", 0%N, bs "ef");
       (bs "a_r1970-01-01_00-00-00.restart-0001.log", 0%N, bs "ghij");
       (bs "a_r1970-01-01_00-00-00.txt", 0%N, bs "z");
+      (bs "a_r1x.log", 0%N, bs "1");
+      (bs "a_r2030-01-01_00-00-00x.log", 0%N, bs "3");
       (bs "a_rCURRENT", 0%N, bs "m");
       (bs "a_rCURRENT.log", 0%N, bs "k");
       (bs "a_rCURRENT.log.gz", 0%N, bs "n");
@@ -380,15 +390,16 @@ Proof. vm_compute. reflexivity. Qed.
    (3) a_r1999-01-01_00-00-00.log: without cleanup it is left alone and has no influence (its time stamp is not asked for).
        With the cleanup "keep 2 log files" it is listed, counts as the newest file, and one of the logger's own files is
        removed in its place; a_r1960-01-01_00-00-00.log counts as the oldest and IS REMOVED; a_r1970-1-1_0-0-0.log (the
-       time-stamp filter reads it as a time stamp) counts, too;
-   (4) a_r1x.log passes the number filter only, which Timestamps naming never applies: no effect, with or without
-       cleanup - the hypothesis of the theorem is a little stronger than necessary here. *)
+       time-stamp filter reads it as a time stamp) counts, too.
+   All these names DO follow the pattern <fixed>_<infix of the naming>.<suffix>[.gz]: this is legitimate.
+   (a_r1x.log, which passes no filter that Timestamps naming applies, was a member here as long as the family test was
+   "time-stamp filter or number filter"; it is foreign now: number_infix_foreign_t.) *)
 Example member_files_t :
   let run_with k app n := ex_snap (fst (run (sys0f 0 0 [(bs n, bs "w")]) (OStart (extf_cfg k app) :: extf_ops ++ [OStop]))) in
   List.map (ts_member extf_c) [bs "a_r1970-01-01_00-00-00.log"; bs "a_r1970-01-01_00-00-00.restart-0005.log";
                                bs "a_r1970-01-01_00-00-00.log.gz"; bs "a_rCURRENT.log"; bs "a_r1999-01-01_00-00-00.log";
-                               bs "a_r1960-01-01_00-00-00.log"; bs "a_r1970-1-1_0-0-0.log"; bs "a_r1x.log"]
-  = [true; true; true; true; true; true; true; true]
+                               bs "a_r1960-01-01_00-00-00.log"; bs "a_r1970-1-1_0-0-0.log"]
+  = [true; true; true; true; true; true; true]
   (* 1 *)
   /\ run_with KNever true "a_r1970-01-01_00-00-00.log"
      = [ (bs "a_r1970-01-01_00-00-00.log", 0%N, bs "w");
@@ -442,14 +453,48 @@ Example member_files_t :
   /\ run_with (KLog 2) true "a_r1970-1-1_0-0-0.log"
      = [ (bs "a_r1970-01-01_00-00-00.restart-0001.log", 0%N, bs "ghij");
          (bs "a_r1970-1-1_0-0-0.log", 0%N, bs "w");
+         (bs "a_rCURRENT.log", 0%N, bs "k") ].
+Proof. vm_compute. repeat split. Qed.
+
+(* A NUMBER INFIX IS FOREIGN for this naming: a_r00001.log and a_r00001.log.gz (the files of the number namings),
+   a_r1x.log, a_r1backup.log, a_r00001x.log (what the number filter took for numbered files before its repair), a date
+   without the time, a time stamp and a letter.  ts_member rejects them; the run with such a file in the directory - with
+   append - is the run in the empty directory, the file stays what it was; and the cleanup (computed; the theorems above
+   are about runs without cleanup) neither counts nor compresses nor removes them: "keep 1 log file and 1 archive" does to
+   the logger's own files what it does in the empty directory. *)
+Example number_infix_foreign_t :
+  let names := [bs "a_r1x.log"; bs "a_r00001.log"; bs "a_r00001.log.gz"; bs "a_r1.log"; bs "a_r1backup.log"; bs "a_r00001x.log";
+                bs "a_r1970-01-01.log"; bs "a_r2030-01-01_00-00-00x.log"] in
+  let run_with k app n := ex_snap (fst (run (sys0f 0 0 [(bs n, bs "w")]) (OStart (extf_cfg k app) :: extf_ops ++ [OStop]))) in
+  List.map (ts_member extf_c) names = List.map (fun _ => false) names
+  /\ Forall (fun n =>
+        List.map (strip_obs [n]) (snd (run (sys0f 0 0 [(n, bs "w")]) (OStart extf_c :: extf_ops ++ [OStop])))
+        = snd (run (sys0 0 0) (OStart extf_c :: extf_ops ++ [OStop]))
+        /\ file_of (wfs (s_w (fst (run (sys0f 0 0 [(n, bs "w")]) (OStart extf_c :: extf_ops ++ [OStop]))))) n
+           = Some (plain_file 0 (bs "w"))) names
+  /\ ex_snap (fst (run (sys0 0 0) (OStart (extf_cfg (KLogGz 1 1) false) :: extf_ops ++ [OStop])))
+     = [ (bs "a_r1970-01-01_00-00-00.restart-0000.log.gz", 1%N, bs "ef");
+         (bs "a_r1970-01-01_00-00-00.restart-0001.log", 0%N, bs "ghij");
          (bs "a_rCURRENT.log", 0%N, bs "k") ]
-  (* 4 *)
-  /\ run_with (KLog 2) true "a_r1x.log"
-     = [ (bs "a_r1970-01-01_00-00-00.restart-0000.log", 0%N, bs "ef");
+  /\ run_with (KLogGz 1 1) false "a_r00001.log"
+     = [ (bs "a_r00001.log", 0%N, bs "w");
+         (bs "a_r1970-01-01_00-00-00.restart-0000.log.gz", 1%N, bs "ef");
+         (bs "a_r1970-01-01_00-00-00.restart-0001.log", 0%N, bs "ghij");
+         (bs "a_rCURRENT.log", 0%N, bs "k") ]
+  /\ run_with (KLogGz 1 1) false "a_r00001.log.gz"
+     = [ (bs "a_r00001.log.gz", 0%N, bs "w");
+         (bs "a_r1970-01-01_00-00-00.restart-0000.log.gz", 1%N, bs "ef");
+         (bs "a_r1970-01-01_00-00-00.restart-0001.log", 0%N, bs "ghij");
+         (bs "a_rCURRENT.log", 0%N, bs "k") ]
+  /\ run_with (KLogGz 1 1) false "a_r1x.log"
+     = [ (bs "a_r1970-01-01_00-00-00.restart-0000.log.gz", 1%N, bs "ef");
          (bs "a_r1970-01-01_00-00-00.restart-0001.log", 0%N, bs "ghij");
          (bs "a_r1x.log", 0%N, bs "w");
          (bs "a_rCURRENT.log", 0%N, bs "k") ].
-Proof. vm_compute. repeat split. Qed.
+Proof.
+  cbv zeta. split; [vm_compute; reflexivity|]. split; [|vm_compute; repeat split; reflexivity].
+  repeat (apply Forall_cons; [vm_compute; split; reflexivity|]). apply Forall_nil.
+Qed.
 
 (* the foreign file a_rXYZ.log is not touched by that cleanup (computed; the theorems above are about runs without cleanup) *)
 Example foreign_file_cleanup_t :
